@@ -28,6 +28,8 @@ Classes(it, r, e, x) ==
     \cup (IF r.var = "uc" /\ EngineModel(it, r.mc, r.uc, "") THEN {"host-case-variant"} ELSE {})
     \cup (IF e /\ it.split THEN {"two-flows-one-url"} ELSE {})
     \cup (IF \E i \in 1..Len(r.uc.p) : r.uc.p[i] = <<>> THEN {"empty-segment"} ELSE {})
+    \cup (IF Len(r.uc.h) # Len(it.pc.h) /\ Len(r.uc.h) + Len(r.uc.p) >= Len(it.pc.h) + 1 /\ r.uc.h # OtherHost
+          THEN {"host-boundary-moved"} ELSE {})
     \cup (IF e /\ IsCatchAll(it.pc) THEN (IF it.ms = {} THEN {"catch-all"} ELSE {"catch-all-with-methods"}) ELSE {})
 
 Group(i) ==
